@@ -25,10 +25,12 @@ def build_ops(fa):
         {"name": "a", "type": "long"}, {"name": "s", "type": "string"},
         {"name": "u", "type": ["null", {"type": "record", "name": "Item", "fields": [{"name": "v", "type": "int"}]}]},
         {"name": "again", "type": ["null", "Item"], "default": None},
-        {"name": "arr", "type": {"type": "array", "items": "double"}, "default": []}]}
+        {"name": "arr", "type": {"type": "array", "items": "double"}, "default": []},
+        {"name": "mp", "type": {"type": "map", "values": {"type": "array", "items": "int"}}, "default": {}}]}
     PREC = fa.parse_schema(copy.deepcopy(REC))
     D1 = {"a": 2 ** 40, "s": "hé", "u": {"v": 7}, "again": {"v": 8}, "arr": [1.5, 2.5]}
     D2 = {"a": -3, "s": "", "u": None, "arr": []}
+    D3 = {"a": 77, "s": "third", "u": {"v": -1}, "again": None, "arr": [0.5], "mp": {"k": [1, 2], "l": []}}
     DEC5 = fa.parse_schema({"type": "bytes", "logicalType": "decimal", "precision": 5, "scale": 2})
     DEC20 = fa.parse_schema({"type": "bytes", "logicalType": "decimal", "precision": 20, "scale": 2})
     FDEC_A = fa.parse_schema({"type": "fixed", "name": "FA", "size": 8, "logicalType": "decimal", "precision": 15, "scale": 3})
@@ -67,6 +69,18 @@ def build_ops(fa):
         return fo.getvalue()
     text = jw()
     ops["json_write"] = jw
+
+    def jw2():
+        fo = io.StringIO()
+        json_writer(fo, PREC, [D3, D1])
+        return fo.getvalue()
+    text2 = jw2()
+    ops["json_write2"] = jw2
+    ops["json_read2"] = lambda: list(json_reader(io.StringIO(text2), PREC))
+    ops["write_shared3"] = lambda: sl(PREC, D3)
+    b_d3 = sl(PREC, D3)
+    ops["read_shared3"] = lambda: fa.schemaless_reader(io.BytesIO(b_d3), PREC)
+    ops["validate_shared3"] = lambda: validate(D3, PREC, raise_errors=False)
     ops["json_read"] = lambda: list(json_reader(io.StringIO(text), PREC))
 
     def cw():
@@ -82,7 +96,11 @@ def build_ops(fa):
 PAIRS = [("read_dec5", "read_dec20"), ("read_dec20", "read_dec5"), ("write_shared", "read_shared"), ("read_shared", "write_shared2"),
          ("validate_shared", "write_shared"), ("parse_raw", "parse_raw"), ("json_write", "json_read"), ("json_read", "json_write"),
          ("write_fdec_a", "write_fdec_b"), ("write_fdec_b", "write_fdec_a"), ("read_item_x", "read_item_y"), ("read_item_y", "read_item_x"),
-         ("container_write", "container_read"), ("container_read", "container_write"), ("write_dec5", "read_dec20"), ("parse_raw", "read_item_x")]
+         ("container_write", "container_read"), ("container_read", "container_write"), ("write_dec5", "read_dec20"), ("parse_raw", "read_item_x"),
+         # the same operation on both sides (per-class / per-module scratch state shows up here)
+         ("json_write", "json_write2"), ("json_write2", "json_write"), ("json_read", "json_read2"), ("write_shared", "write_shared3"),
+         ("read_shared", "read_shared3"), ("validate_shared", "validate_shared3"), ("container_write", "container_write"),
+         ("container_read", "container_read"), ("write_fdec_a", "write_fdec_a"), ("read_dec5", "read_dec5")]
 
 
 def outcome(fn):
@@ -114,6 +132,11 @@ def shared_cells(repo):
                 continue
             if isinstance(v, (dict, list, set, bytearray, io.BytesIO, io.StringIO, decimal.Context)):
                 cells["%s.%s" % (mname, k)] = v
+            elif isinstance(v, type) and getattr(v, "__module__", None) == mname:
+                # class attributes are shared by all instances
+                for ck, cv in vars(v).items():
+                    if not ck.startswith("__") and isinstance(cv, (dict, list, set, bytearray, io.BytesIO, io.StringIO, decimal.Context)):
+                        cells["%s.%s.%s" % (mname, k, ck)] = cv
     return cells
 
 
@@ -201,6 +224,89 @@ def run_preempted(repo, fx, fy, k):
     return out.get("x"), out.get("y"), count[0]
 
 
+def run_nested(repo, fx, fy, k1, k2):
+    """X runs to its k1-th library line event and is suspended; Y runs to its k2-th event and is suspended; X runs to completion; Y resumes.
+    (Both operations are inside the library at the same time and finish in the order they started: what a shared LIFO cannot survive.)"""
+    prefix = lib_prefix(repo)
+    go_y = threading.Event()
+    x_resume = threading.Event()
+    x_done = threading.Event()
+    out = {}
+    cx = [0]
+    cy = [0]
+
+    def tracer_x(frame, event, arg):
+        if not frame.f_code.co_filename.startswith(prefix):
+            return None
+        if event == "line":
+            if cx[0] == k1 and not go_y.is_set():
+                go_y.set()
+                x_resume.wait(20)
+            cx[0] += 1
+        return tracer_x
+
+    def tracer_y(frame, event, arg):
+        if not frame.f_code.co_filename.startswith(prefix):
+            return None
+        if event == "line":
+            if cy[0] == k2 and not x_resume.is_set():
+                x_resume.set()
+                x_done.wait(20)
+            cy[0] += 1
+        return tracer_y
+
+    def tx():
+        sys.settrace(tracer_x)
+        try:
+            out["x"] = outcome(fx)
+        finally:
+            sys.settrace(None)
+            go_y.set()
+            x_done.set()
+
+    def ty():
+        go_y.wait(20)
+        sys.settrace(tracer_y)
+        try:
+            out["y"] = outcome(fy)
+        finally:
+            sys.settrace(None)
+            x_resume.set()
+    a = threading.Thread(target=tx)
+    b = threading.Thread(target=ty)
+    a.start()
+    b.start()
+    a.join(30)
+    b.join(30)
+    return out.get("x"), out.get("y")
+
+
+_OPS = {}
+
+
+def _replay_pair(job):
+    """Worker process: all schedules of one ordered pair; returns (first bad schedule or None, single, nested schedules run)."""
+    repo, x, y, points, pts2, sx, sy = job
+    if repo not in _OPS:
+        from . import env
+        env.bind(repo)
+        import fastavro
+        _OPS[repo] = build_ops(fastavro)
+    ops = _OPS[repo]
+    n1 = n2 = 0
+    for k in points:
+        rx, ry, _ = run_preempted(repo, ops[x], ops[y], k)
+        n1 += 1
+        if rx != sx or ry != sy:
+            return (k, rx, ry), n1, n2
+    for k1, k2 in pts2:
+        rx, ry = run_nested(repo, ops[x], ops[y], k1, k2)
+        n2 += 1
+        if rx != sx or ry != sy:
+            return ((k1, k2), rx, ry), n1, n2
+    return None, n1, n2
+
+
 def run_c18(ctx, fa):
     from . import mcheck, tlc
     # M: the two-thread model of a decimal read with a per-call context is serializable under every interleaving
@@ -228,29 +334,40 @@ def run_c18(ctx, fa):
     ctx.add_model(res["transitions"], res["states"])
     ctx.checker_cmds.append("tlc GenThreads.tla: conflicting schedules of %d operation pairs from recorded footprints" % len(PAIRS))
     suggested = {}
+    nested = {}
     for mc in model_cases:
         g = res["results"].get(mc["id"])
         if isinstance(g, dict):
             suggested[mc["id"]] = g.get("points", [])
+            nested[mc["id"]] = [(v // 100000, v % 100000) for v in g.get("nested", [])]
+    ctx.extra["nested_schedules_suggested_by_model"] = {k: len(v) for k, v in nested.items() if v}
     ctx.extra["schedules_suggested_by_model"] = {k: len(v) for k, v in suggested.items() if v}
     # ---- replay: model-suggested pre-emption points, then every single pre-emption point (backstop)
     step = 1 if not ctx.quick() else 1
     total = 0
+    nnested = 0
+    jobs = []
     for x, y in PAIRS:
         nx = foot[x][0]
+        ny = foot[y][0]
         points = list(dict.fromkeys(list(suggested.get("%s|%s" % (x, y), [])) + list(range(0, nx + 1, step))))
-        bad = None
-        for k in points:
-            rx, ry, _ = run_preempted(ctx.repo, ops[x], ops[y], k)
-            total += 1
-            if rx != seq[x] or ry != seq[y]:
-                bad = (k, rx, ry)
-                break
+        # nested schedules (X to k1, Y to k2, X completes, Y completes): those the model derives from the footprints, then a grid
+        grid = 16 if ctx.quick() else 120
+        pts2 = list(nested.get("%s|%s" % (x, y), []))
+        pts2 += [(1 + (i * (nx - 1)) // grid, 1 + (j * (ny - 1)) // grid) for i in range(grid + 1) for j in range(grid + 1)]
+        pts2 = list(dict.fromkeys(pts2))
+        jobs.append((ctx.repo, x, y, points, pts2, seq[x], seq[y]))
+    import multiprocessing
+    with multiprocessing.get_context("fork").Pool(min(len(jobs), os.cpu_count() or 4)) as pool:
+        replayed = pool.map(_replay_pair, jobs, chunksize=1)
+    for (x, y), (_, _, _, points, pts2, _, _), (bad, n1, n2) in zip(PAIRS, jobs, replayed):
+        total += n1 + n2
+        nnested += n2
         key = "%s|%s" % (x, y)
         ctx.traces += 1
         ctx.mark(key, True)
         if bad is None:
-            ctx.count("C18.serializable", "ok", len(points))
+            ctx.count("C18.serializable", "ok", len(points) + len(pts2))
         else:
             k, rx, ry = bad
             case = {"id": key, "op": "sched", "x": x, "y": y, "preempt_before_line_event": k,
@@ -262,14 +379,15 @@ def run_c18(ctx, fa):
                 ctx.known_hits.append((kf, case))
             else:
                 ctx.count("C18.serializable", "fail")
-                ctx.violations.append(("C18.serializable", case, "pair=%s pre-emption before line event %d of %s: results differ from sequential" % (key, k, x)))
+                ctx.violations.append(("C18.serializable", case, "pair=%s pre-emption before line event %s of %s: results differ from sequential" % (key, k, x)))
     ctx.evaluations += total
     ctx.extra["schedules_replayed"] = total
+    ctx.extra["nested_schedules_replayed"] = nnested
     ctx.exhaustive = True
     ctx.rule = ("%d ordered pairs of operations (decimal reads of different precision, fixed-decimal writes, reads/writes/validate/parse/JSON/container "
                 "sharing one parsed schema, readers of schemas that define the same name differently) on distinct streams; for each pair every single "
                 "pre-emption point of the first operation at library-line granularity (thread X suspended before its k-th line event, Y runs to "
-                "completion, X resumes), results compared with the sequential results; footprints of shared writes recorded under sys.settrace feed "
+                "completion, X resumes) and nested schedules (X to k1, Y to k2, X completes, Y completes) on a grid plus those the model derives from conflicting writes, results compared with the sequential results; footprints of shared writes recorded under sys.settrace feed "
                 "the Threads model; non-trivial = >= 1 pre-emption") % len(PAIRS)
     ctx.sample({"pair": PAIRS[0], "line_events": foot[PAIRS[0][0]][0], "shared_writes": ctx.extra["shared_writes_per_operation"].get(PAIRS[0][0])})
     ctx.assumptions.append("schedules are those a line-granular scheduler can impose under the GIL (pre-emption between lines of the pure-Python modules)")
